@@ -277,7 +277,8 @@ class Spec:
     lean_targets = ["Mhd.Props.C08", "drv_pool", "drv_mem"]
     required_theorems = ["Mhd.C08.step_wf", "Mhd.C08.run_wf", "Mhd.C08.block_in_bounds_disjoint",
                          "Mhd.C08.refused_unchanged", "Mhd.C08.others_untouched",
-                         "Mhd.C08.realloc_preserves", "Mhd.C08.reset_keeps"]
+                         "Mhd.C08.realloc_preserves", "Mhd.C08.reset_keeps",
+                         "Mhd.C08.no_space_status_is_too_large", "Mhd.C08.no_space_501_only_for_nonstandard_method", "Mhd.C08.no_space_codes"]
     trusted_base = ["Lean 4 kernel", "axioms: propext, Classical.choice, Quot.sound at most (audited per theorem)",
                     "hand-written model lean/Mhd/Model/Pool.lean tied to memorypool.c by this run's correspondence",
                     "tools/extract.py (ALIGN_SIZE, red zone, page size regenerated)", "harness/h_pool.c, gcc, ASan/UBSan"]
@@ -287,6 +288,8 @@ class Spec:
 
     def gen(self, ctx):
         gen_pool()
+        import importlib
+        importlib.import_module("props.C01").gen_connmem()
 
     def build(self, ctx):
         self.h_daemon = vlib.build_daemon_harness()
@@ -398,6 +401,49 @@ class Spec:
             if kind:
                 import re as _re
                 failures.append(vlib.Failure(kind, "arena-blocks: " + _re.sub(r"\d+", "N", det)[:100], "[pool-poisoning build] " + det, lines, "conn"))
+        # status selection for a request that does not fit (get_no_space_err_status_code): boundary-exhaustive + random,
+        # real function on a fabricated connection vs Mhd.Model.NoSpace; oracle: always one of 413/414/431 (501 only for
+        # a non-standard method token)
+        ns_lines = []
+        opts = [0, 1, 2, 26, 27, 100, 6144, 6145, 20000]
+        uris = [0, 1, 2, 40, 41, 300, 8000, 8001, 100000]
+        for st in (4, 6, 7, 8):
+            for (asz, ak) in ((0, 0), (3, 0), (5, 0), (30, 0), (30, 1), (30, 2), (7000, 1), (5, 2)):
+                for opt in opts:
+                    for uri in uris:
+                        for hv in ("-", "1", "100"):
+                            for (mo, ml) in ((0, 0), (1, 1), (1, 16), (1, 17), (1, max(opt // 2, 1)), (1, opt // 2 + 1),
+                                             (1, max(uri // 16, 1)), (1, uri // 16 + 1), (1, uri // 4 + 1), (1, opt + 1)):
+                                if ak == 1 and opt < asz:
+                                    continue
+                                ns_lines.append("nospace %d %d %d %d %s %d %d %d" % (st, asz, ak, opt, hv, uri, mo, ml))
+        if ctx.tier == "quick":
+            ns_lines = ctx.rng.sample(ns_lines, 12000)
+        for _ in range(3000 if ctx.tier == "quick" else 60000):
+            r = ctx.rng
+            asz, ak = r.choice([(0, 0), (r.randint(1, 9000), 0), (r.randint(5, 9000), 1), (r.randint(5, 9000), 2)])
+            opt = r.choice([r.randint(0, 60), r.randint(0, 20000)])
+            if ak == 1:
+                opt = max(opt, asz)
+            ns_lines.append("nospace %d %d %d %d %s %d %d %d" % (r.choice([4, 6, 7, 8]), asz, ak, opt, r.choice(["-", str(r.randint(0, 300))]),
+                                                                  r.choice([r.randint(0, 100), r.randint(0, 200000)]), r.randint(0, 1),
+                                                                  r.choice([0, r.randint(0, 40), r.randint(0, 20000)])))
+        hout, hrc, herr = vlib.run_lines(self.h_mem, ns_lines)
+        mout, mrc, merr = vlib.run_lines(self.drv_mem, ns_lines)
+        ns_dist = {}
+        if hrc != 0:
+            failures.append(vlib.Failure("sanitizer", "nospace: harness aborted", herr[-1500:], ns_lines[max(len(hout) - 1, 0):len(hout) + 1], "mem"))
+        else:
+            for ln, h, m in zip(ns_lines, hout, mout):
+                ns_dist[h] = ns_dist.get(h, 0) + 1
+                w = ln.split()
+                code = int(h.split("=")[1]) if h.startswith("status=") else -1
+                if code not in (413, 414, 431, 501) or (code == 501 and w[7] == "0"):
+                    failures.append(vlib.Failure("oracle", "nospace: refusal status outside 413/414/431 (or 501 for a standard method)", "%s -> %s" % (ln, h), [ln], "mem"))
+                    break
+                if h != m:
+                    failures.append(vlib.Failure("diff", "nospace: model/code differ", "%s: code %s model %s" % (ln, h, m), [ln], "mem"))
+                    break
         distinct = len({json.dumps(s) for s in allseqs if len(s) > 2})
         cov = {"evaluations": len(allseqs), "distinct_nontrivial": distinct,
                "rule": "op sequences on the real pool and the Lean model; distinct = different scripts with >=2 ops; "
@@ -406,7 +452,7 @@ class Spec:
                "samples": [[" ".join(o) for o in rnd[0]], [" ".join(o) for o in exh[len(exh) // 2]]],
                "exhaustive_sequences": len(exh), "exhaustive_alphabet": EXH_ALPHA, "random_sequences": len(rnd), "corpus": ncorp,
                "outcomes": stats, "oversized_requests": len(ov), "oversized_outcomes": ov_stats, "buffer_layer": cov_mem,
-               "poisoned_pool_daemon_cases": len(pc), "exhaustive": False}
+               "poisoned_pool_daemon_cases": len(pc), "no_space_status_cases": len(ns_lines), "no_space_status_outcomes": ns_dist, "exhaustive": False}
         cov["evaluations"] += len(ov) + len(pc) + cov_mem.get("evaluations", 0)
         return failures, cov
 
